@@ -289,3 +289,23 @@ package oned
 //@   proof cases i 0 105, j 0 105
 //@   requires i < j
 //@   ensures exists k int :: 0 <= k && k < 6 && code128CODE_PATTERNS[i][k] != code128CODE_PATTERNS[j][k]
+
+// ---------------------------------------------------------------- RecordPattern (C20): run lengths starting at `start`
+// chg(row, a, i): number of colour changes between consecutive pixels in row[a..i)
+//@ spec func chg(row *gozxing.BitArray, a int, i int) int = i <= a + 1 ? 0 : chg(row, a, i - 1) + (gozxing.bit(row, i - 1) != gozxing.bit(row, i - 2) ? 1 : 0)
+//@ func RecordPattern(row *gozxing.BitArray, start int, counters []int) (e error)
+//@   property C20 C06
+//@   requires row != nil && gozxing.wfBA(row) && 0 <= start && len(counters) >= 1 && row.size <= 10000000
+// it fails only when the row ends before the last counter is reached: start is outside the row, or fewer than n-1 colour changes follow
+//@   ensures e != nil ==> start >= row.size || chg(row, start, row.size) < len(counters) - 1
+//@   ensures e != nil ==> typeis(e, "gozxing.notFoundException")
+// on success every counter is positive except that nothing is said about their sum beyond the row: they add up to at most the pixels available
+//@   ensures e == nil ==> (forall k int :: 0 <= k && k < len(counters) ==> counters[k] >= 1)
+//@   modifies counters[*]
+//@   loop 0: invariant -1 <= rangeindex && rangeindex < len(counters) && (forall k int :: 0 <= k && k <= rangeindex ==> counters[k] == 0)
+//@   loop 0: decreases len(counters) - rangeindex
+//@   loop 1: invariant start <= i && i <= end && end == row.size && numCounters == len(counters) && 0 <= counterPosition && counterPosition < numCounters && start < end
+//@   loop 1: invariant i == start ==> counterPosition == 0 && isWhite == !gozxing.bit(row, start)
+//@   loop 1: invariant i > start ==> counterPosition == chg(row, start, i) && isWhite == !gozxing.bit(row, i - 1)
+//@   loop 1: invariant (forall k int :: 0 <= k && k < counterPosition ==> counters[k] >= 1) && (i > start ==> counters[counterPosition] >= 1) && (forall k int :: counterPosition < k && k < numCounters ==> counters[k] == 0) && (i == start ==> counters[0] == 0)
+//@   loop 1: decreases end - i
